@@ -21,6 +21,13 @@
 import NemoVerif.Lemmas.SlideGraph
 import NemoVerif.Lemmas.ErrContain
 import NemoVerif.Lemmas.RoundMachine
+import NemoVerif.Lemmas.SlideGraphComplete
+import NemoVerif.Lemmas.ErrFrameAdvVM
+import NemoVerif.Lemmas.ErrFrameCorVM
+import NemoVerif.Lemmas.ErrLeafVM
+import NemoVerif.Lemmas.ErrRestartVM
+import NemoVerif.Lemmas.ErrExtVM
+import NemoVerif.Lemmas.SlideStepVM
 
 namespace NemoVerif.C10
 open NemoVerif.SlideGraph NemoVerif.ErrContain NemoVerif.RoundMachine
@@ -72,6 +79,16 @@ theorem slide_bound_exact (p : Prog) (hac : SlideAcyclic p) (h : Head) (hc : Cat
 theorem slideAcyclic_sound (p : Prog) (h : slideAcyclic p = true) : SlideAcyclic p :=
   checkRank_sound h
 
+/-- **checker completeness** (phase 4): an acyclic sliding graph is ALWAYS accepted — the verified checker never rejects a flow
+    whose loops all contain a waiting statement (no false alarm by construction; `Wit`/`Low` invariants of the Gauss–Seidel
+    sweeps, `Lemmas/SlideGraphComplete.lean`). -/
+theorem slideAcyclic_complete (p : Prog) (h : SlideAcyclic p) : slideAcyclic p = true :=
+  NemoVerif.SlideGraph.slideAcyclic_complete p h
+
+/-- the checker DECIDES acyclicity of the sliding graph -/
+theorem slideAcyclic_iff (p : Prog) : slideAcyclic p = true ↔ SlideAcyclic p :=
+  NemoVerif.SlideGraph.slideAcyclic_iff p
+
 /-- Corollary used by the harness: checker says yes ⇒ every `slide` call on that flow is bounded. -/
 theorem checked_flow_slide_terminates (p : Prog) (hck : slideAcyclic p = true) (h : Head) (hc : CatchOk p h)
     (o : Nat → Ans) (k : Nat) : (slide p o (p.length + 1) k h).stop ≠ none :=
@@ -114,6 +131,8 @@ example : slideRanked whenShape = true := by decide
 /-- non-vacuity: `while $c: (match …)`-shaped flow — label, goto-out, WAIT, goto-back, label — is accepted -/
 def loopWithWait : Prog := [.step false, .goto (some 4), .wait false, .goto (some 0), .step false]
 example : slideAcyclic loopWithWait = true := by decide
+/-- non-vacuity of `slideAcyclic_complete`: a loop WITH a wait is acyclic -/
+example : SlideAcyclic loopWithWait := slideAcyclic_sound _ (by decide)
 example : CatchOk loopWithWait { pos := 0, cstack := [] } := by intro t ht; simp at ht
 
 /-- witness that the hypothesis is needed: `while True: $x = 1` (no waiting statement) is rejected by the checker
@@ -391,3 +410,506 @@ def guardedProg : RProg :=
 example : roundRanked guardedProg = true := by decide +kernel
 
 end NemoVerif.C10
+
+namespace NemoVerif.C10.VM
+open NemoVerif NemoVerif.CoreIndex NemoVerif.CoreVM
+
+/-! ## Error containment on the whole-interpreter model `CoreVM` (Models/CoreVM/*, built under C09)
+
+  `M = EStateM VMErr VM`; a result is `.ok a s'` (normal return), `.error (.py cls msg) s'` (a Python-level exception leaves
+  the function, with the state at the moment of the raise), `.error .outOfFuel s'` (says nothing about Python, kept apart),
+  `.error (.unsupported _) s'` / `.error (.guardFailed _) s'` (the model stops).  `outState r` = the state of a result. -/
+
+/-- `try: … except Exception` of the model (`attemptPy`, used around `slide` + fork recursion, around the second half of the
+    try block of `_advance_head_front`, and around `_compute_event_matching_score` in the candidate scan): whatever the
+    guarded computation does, no Python-level exception leaves it — for every computation and every state. -/
+theorem vm_try_never_propagates {α : Type} (x : M α) (s s' : VM) (c m : String) :
+    attemptPy x s ≠ .error (.py c m) s' := attemptPy_never_py x s s' c m
+
+/-- … it is turned into a value, and the state is the one at the moment of the raise (nothing is rolled back) -/
+theorem vm_try_catches {α : Type} (x : M α) (s s' : VM) (c m : String) (h : x s = .error (.py c m) s') :
+    attemptPy x s = .ok (.error (c, m)) s' := attemptPy_of_py h
+
+
+/-- **the `except` branch of `_advance_head_front`, as an equation.**  One ACTIVE head `k` of a listening instance is advanced;
+    after `head.position += 1` (and WAITING → STARTING) the first part of the try block — `slide` plus the recursion into freshly
+    forked heads — raises `cls: msg` in state `s2`, the head still standing on an element (`hpos`).  Then the whole call IS the
+    handler run from `s2`: push `ColangError(type=cls, error=msg)`, (an activated flow that was still STARTING is marked so that
+    it is not restarted), `_abort_flow(deactivate_flow=False)`, nothing handed back. -/
+theorem vm_except_branch (fuel : Nat) (k : Key) (s s1 s2 : VM) (i : Inst) (hd hd2 : Head) (cfg : FlowCfg) (c m : String)
+    (starting : Bool)
+    (hi : findInst s.ixs.ix k.1 = some i) (hl : i.status.listening = true)
+    (hcfg : cfgOfInst k.1 s = .ok cfg s)
+    (hhd : i.findHead k.2 = some hd) (hact : hd.status = .active)
+    (hpre : (do
+        setHeadPos k (hd.pos + 1)
+        if (← getInst k.1).status = FlowStatus.waiting then setFlowStatus k.1 FlowStatus.starting
+        pure (decide ((← getInst k.1).status = FlowStatus.starting))) s = .ok starting s1)
+    (hraise : (do
+        let newHeads ← slide fuel k.1 k.2
+        if newHeads.isEmpty then pure [] else advanceHeadFront fuel newHeads) s1 = .error (.py c m) s2)
+    (hhd2 : (findInst s2.ixs.ix k.1).bind (·.findHead k.2) = some hd2) (hpos : hd2.pos < cfg.elements.size) :
+    advanceHeadFront (fuel + 1) [k] s = errHandler fuel k c m starting s2 :=
+  advance_error_path fuel k s s1 s2 i hd hd2 cfg c m starting hi hl hcfg hhd hact hpre hraise hhd2 hpos
+
+/-- **`error_contained` on CoreVM** (same hypotheses, one more unit of fuel so that `_abort_flow` can run).
+    (1) Whatever the result of `_advance_head_front`, the `ColangError` event is in the queue of the final state.
+    (2) On normal return nothing is handed back for the faulty head, nothing that was queued when the exception was raised is
+        lost, no instance disappeared, and — if the faulty instance was still listening or STOPPING when the exception was
+        raised — it ends STOPPED (FAILED) without heads with its `FlowFailed` event queued.
+    (3) PROVENANCE: if anything but a normal return leaves `_advance_head_front`, it was raised by `_abort_flow` itself (its
+        clean-up of child flows / actions / the parent link) or by the handler's look-up of the faulty flow's own record — never
+        by the faulty statement.  [`outOfFuel` included: it can only come out of `_abort_flow`'s recursion.] -/
+theorem vm_error_contained (fuel : Nat) (k : Key) (s s1 s2 : VM) (i : Inst) (hd hd2 : Head) (cfg : FlowCfg) (c m : String)
+    (starting : Bool)
+    (hi : findInst s.ixs.ix k.1 = some i) (hl : i.status.listening = true)
+    (hcfg : cfgOfInst k.1 s = .ok cfg s)
+    (hhd : i.findHead k.2 = some hd) (hact : hd.status = .active)
+    (hpre : (do
+        setHeadPos k (hd.pos + 1)
+        if (← getInst k.1).status = FlowStatus.waiting then setFlowStatus k.1 FlowStatus.starting
+        pure (decide ((← getInst k.1).status = FlowStatus.starting))) s = .ok starting s1)
+    (hraise : (do
+        let newHeads ← slide (fuel + 1) k.1 k.2
+        if newHeads.isEmpty then pure [] else advanceHeadFront (fuel + 1) newHeads) s1 = .error (.py c m) s2)
+    (hhd2 : (findInst s2.ixs.ix k.1).bind (·.findHead k.2) = some hd2) (hpos : hd2.pos < cfg.elements.size) :
+    colangErrorEvent c m ∈ (outState (advanceHeadFront (fuel + 2) [k] s)).r.queue ∧
+    (∀ r s', advanceHeadFront (fuel + 2) [k] s = .ok r s' →
+      r = [] ∧ Ext s2 s' ∧
+      ∀ i2, findInst s2.ixs.ix k.1 = some i2 → (i2.status.listening = true ∨ i2.status = .stopping) →
+        ∃ sc, Aborted k.1 sc s') ∧
+    (∀ e s', advanceHeadFront (fuel + 2) [k] s = .error e s' →
+      (∃ s3 sc, Ext s2 s3 ∧ s3.ixs = s2.ixs ∧ abortFlow (fuel + 1) k.1 sc false s3 = .error e s') ∨
+      errPrefix k c m starting s2 = .error e s') := by
+  have heq := advance_error_path (fuel + 1) k s s1 s2 i hd hd2 cfg c m starting hi hl hcfg hhd hact hpre hraise hhd2 hpos
+  refine ⟨?_, ?_, ?_⟩
+  · rw [heq]; exact errHandler_queues _ k c m starting s2
+  · intro r s' h; rw [heq] at h; exact errHandler_ok fuel k c m starting s2 s' r h
+  · intro e s' h; rw [heq] at h; exact errHandler_error (fuel + 1) k c m starting s2 s' e h
+
+/-- **post-condition of `_abort_flow(deactivate_flow=False)`** on an instance that is listening or STOPPING: every normal
+    return leaves it STOPPED without heads, its `FlowFailed` internal event (with the given matching scores) queued. -/
+theorem vm_abort_postcondition (fuel : Nat) (f : FUid) (sc : List Score) (s s' : VM) (i : Inst)
+    (hi : findInst s.ixs.ix f = some i) (hl : i.status.listening = true ∨ i.status = .stopping)
+    (h : abortFlow (fuel + 1) f sc false s = .ok () s') : Aborted f sc s' :=
+  abortFlow_aborts fuel f sc s s' i hi hl h
+
+/-- `_abort_flow` (any `deactivate_flow`, full recursion into child flows, action clean-up), on normal return AND when an
+    exception leaves it: nothing that is queued is lost (events are only added), no instance disappears, the program is kept -/
+theorem vm_abort_keeps_queue_and_instances (fuel : Nat) (f : FUid) (sc : List Score) (d : Bool) (s : VM) :
+    Ext s (outState (abortFlow fuel f sc d s)) := (Ext.abortFlow fuel f sc d).app s
+
+/-- `_advance_head_front` as a whole (any heads, any outcome): nothing that is queued is lost — events are only added —, no
+    instance disappears, the program is kept.  In particular a `ColangError` pushed by an `except` branch for one head is still
+    queued when the call returns, whatever the remaining heads do. -/
+theorem vm_advance_keeps_queue_and_instances (fuel : Nat) (heads : List Key) (s : VM) :
+    Ext s (outState (advanceHeadFront fuel heads s)) := (Ext.advanceHeadFront fuel heads).app s
+
+/-- evaluating an expression, building an event from an element and computing a matching score never change the state
+    (only the uid counter can move) — also when they raise.  With `vm_try_never_propagates` this is the matching-phase part:
+    a candidate whose match statement raises leaves no trace but the `ColangError` the scan pushes. -/
+theorem vm_evaluation_read_only (f : FUid) (e : Expr) (sp : Spec) (ev : Event) (b : Bool) (s : VM) :
+    Same s (outState (evalIn f e s)) ∧ Same s (outState (getEvent f sp b s)) ∧ Same s (outState (eventMatchingScore f sp ev s)) :=
+  ⟨(Same.evalIn f e).app s, (Same.getEvent f sp b).app s, (Same.eventMatchingScore f sp ev).app s⟩
+
+/-- **conditional no-propagation on CoreVM** (`vm_leaf_error_never_propagates`): the hypotheses of `vm_error_contained`, and at the
+    moment of the raise the faulty instance is a LEAF — no child flows, no actions, its own context dict, its parent (if any)
+    exists and, when the instance is not activated, lists it (`Leafish1`; decidable on a concrete state, checked at run time on
+    the real `FlowState`s).  Then NO Python-level exception leaves `_advance_head_front`: the call returns normally (clauses (1),
+    (2) of `vm_error_contained` apply) or the model stops for a reason that says nothing about Python (fuel / unsupported /
+    index guard).  [For instances with children or actions `_abort_flow` recurses / releases actions; there the provenance
+    clause of `vm_error_contained` is what is proved.] -/
+theorem vm_leaf_error_never_propagates (fuel : Nat) (k : Key) (s s1 s2 : VM) (i : Inst) (hd hd2 : Head) (cfg : FlowCfg)
+    (c m : String) (starting : Bool) (par : Option FUid) (act : Int)
+    (hi : findInst s.ixs.ix k.1 = some i) (hl : i.status.listening = true)
+    (hcfg : cfgOfInst k.1 s = .ok cfg s)
+    (hhd : i.findHead k.2 = some hd) (hact : hd.status = .active)
+    (hpre : (do
+        setHeadPos k (hd.pos + 1)
+        if (← getInst k.1).status = FlowStatus.waiting then setFlowStatus k.1 FlowStatus.starting
+        pure (decide ((← getInst k.1).status = FlowStatus.starting))) s = .ok starting s1)
+    (hraise : (do
+        let newHeads ← slide (fuel + 1) k.1 k.2
+        if newHeads.isEmpty then pure [] else advanceHeadFront (fuel + 1) newHeads) s1 = .error (.py c m) s2)
+    (hhd2 : (findInst s2.ixs.ix k.1).bind (·.findHead k.2) = some hd2) (hpos : hd2.pos < cfg.elements.size)
+    (hleaf : Leafish1 k.1 par act s2) :
+    ∀ c' m' s', advanceHeadFront (fuel + 2) [k] s ≠ .error (.py c' m') s' := by
+  rw [advance_error_path (fuel + 1) k s s1 s2 i hd hd2 cfg c m starting hi hl hcfg hhd hact hpre hraise hhd2 hpos]
+  exact errHandler_leaf_no_py fuel k rfl c m starting s2 hleaf
+
+
+/-- **restart guard on CoreVM** (`vm_restart_guard`; the CoreVM counterpart of `restart_guard_fail_repaired`, guard 0a36b0f of the
+    code): the hypotheses of `vm_except_branch` with the flow still STARTING (`starting = true`), the faulty instance activated.
+    Then `_advance_head_front` — whatever the instance's children and actions, whatever the outcome — adds NO `StartFlow` event to
+    the queue: an activated flow that fails before it was started is not restarted in the same round (no restart loop). -/
+theorem vm_restart_guard (fuel : Nat) (k : Key) (s s1 s2 : VM) (i : Inst) (hd hd2 : Head) (cfg : FlowCfg) (c m : String) (x : InstX)
+    (hi : findInst s.ixs.ix k.1 = some i) (hl : i.status.listening = true)
+    (hcfg : cfgOfInst k.1 s = .ok cfg s)
+    (hhd : i.findHead k.2 = some hd) (hact : hd.status = .active)
+    (hpre : (do
+        setHeadPos k (hd.pos + 1)
+        if (← getInst k.1).status = FlowStatus.waiting then setFlowStatus k.1 FlowStatus.starting
+        pure (decide ((← getInst k.1).status = FlowStatus.starting))) s = .ok true s1)
+    (hraise : (do
+        let newHeads ← slide (fuel + 1) k.1 k.2
+        if newHeads.isEmpty then pure [] else advanceHeadFront (fuel + 1) newHeads) s1 = .error (.py c m) s2)
+    (hhd2 : (findInst s2.ixs.ix k.1).bind (·.findHead k.2) = some hd2) (hpos : hd2.pos < cfg.elements.size)
+    (hx : OMap.lookup k.1 s2.r.fx = some x) (hactv : x.activated > 0) :
+    startCount (outState (advanceHeadFront (fuel + 2) [k] s)) ≤ startCount s2 := by
+  rw [advance_error_path (fuel + 1) k s s1 s2 i hd hd2 cfg c m true hi hl hcfg hhd hact hpre hraise hhd2 hpos]
+  exact errHandler_restart_guard fuel k c m s2 x hx hactv
+
+
+/-! ### frame: a family `G` of instances closed under child / scope flows, owning its contexts -/
+
+/-- `_abort_flow` on a member of `G` — any `deactivate_flow`, any outcome — leaves every instance outside `G` untouched: same
+    status, heads, positions, head data (scores, catch labels, scopes), same record (context, arguments, activation, scopes,
+    actions …) except that a child list may lose entries (`parent.child_flow_uids.remove`); and `G` stays closed. -/
+theorem vm_abort_frame (G : FUid → Prop) (fuel : Nat) (f : FUid) (sc : List Score) (d : Bool) (hG : G f) (s : VM)
+    (hc : Closed G s) :
+    Closed G (outState (abortFlow fuel f sc d s)) ∧ FrameOut G s (outState (abortFlow fuel f sc d s)) :=
+  (Fr.abortFlow fuel f sc d hG).app s hc
+
+/-- the same for `_finish_flow` -/
+theorem vm_finish_frame (G : FUid → Prop) (fuel : Nat) (f : FUid) (sc : List Score) (d : Bool) (hG : G f) (s : VM)
+    (hc : Closed G s) :
+    Closed G (outState (finishFlow fuel f sc d s)) ∧ FrameOut G s (outState (finishFlow fuel f sc d s)) :=
+  (Fr.finishFlow fuel f sc d hG).app s hc
+
+/-- the same for `slide` on a head of a member of `G`: all 22 element kinds, expression errors, scope clean-up with its
+    `_abort_flow` calls, forks and merges included — also when an exception leaves `slide` -/
+theorem vm_slide_frame (G : FUid → Prop) (fuel : Nat) (f : FUid) (h : HUid) (hG : G f) (s : VM) (hc : Closed G s) :
+    Closed G (outState (slide fuel f h s)) ∧ FrameOut G s (outState (slide fuel f h s)) :=
+  (Fr.slide fuel f h hG).app s hc
+
+/-- the heads `slide` hands back (forked heads, the merged parent head) are heads of the flow that was slid -/
+theorem vm_slide_returns_own_heads (fuel : Nat) (f : FUid) (h : HUid) (s s' : VM) (r : List Key)
+    (hr : slide fuel f h s = .ok r s') : ∀ k ∈ r, k.1 = f := slide_keys fuel f h s s' r hr
+
+
+/-- **frame theorem for `_advance_head_front` as a whole** (`vm_advance_frame`).  All heads belong to members of `G`; then —
+    skip conditions, `head.position += 1`, WAITING → STARTING, `slide`, the recursion into freshly forked heads, both halves
+    of the try block, the `except` branch, `_finish_flow`, `_abort_flow`, whatever the outcome (normal return, a Python-level
+    exception, fuel) — every instance outside `G` is untouched (`FrameOut`) and `G` stays closed.  This is the "fails only that
+    flow" half of the property on the whole-interpreter model: with `G` = the faulty instance and its descendants, everything
+    else has the same status, heads, head data and context as before the faulty statement was executed — hence the same as in
+    the run in which that statement is replaced by `abort` (which, by the same theorem, also changes nothing outside `G`). -/
+theorem vm_advance_frame (G : FUid → Prop) (fuel : Nat) (heads : List Key) (hH : ∀ k ∈ heads, G k.1) (s : VM)
+    (hc : Closed G s) :
+    Closed G (outState (advanceHeadFront fuel heads s)) ∧ FrameOut G s (outState (advanceHeadFront fuel heads s)) :=
+  (Fr.advanceHeadFront fuel heads hH).app s hc
+
+/-- **the faulty run and the run in which the faulty statement is replaced by `abort`** agree outside the faulty family.
+    `s` and `sA` are the states before `_advance_head_front` in the two runs: they may differ in the program (the replaced
+    statement) and inside `G`, and agree outside `G`.  Whatever the two calls do — the faulty one raises inside `slide` and goes
+    through the `except` branch, the other executes `abort` — every instance outside `G` ends with the same status, heads,
+    head positions / statuses, head data and the same record (context included; child lists apart) in both runs. -/
+theorem vm_faulty_vs_abort (G : FUid → Prop) (fuel fuelA : Nat) (heads headsA : List Key)
+    (hH : ∀ k ∈ heads, G k.1) (hHA : ∀ k ∈ headsA, G k.1) (s sA : VM) (hc : Closed G s) (hcA : Closed G sA)
+    (hix : ∀ g, ¬ G g → findInst s.ixs.ix g = findInst sA.ixs.ix g)
+    (hhx : ∀ g h, ¬ G g → OMap.lookup (g, h) s.r.hx = OMap.lookup (g, h) sA.r.hx)
+    (hfx : ∀ g, ¬ G g → OMap.lookup g s.r.fx = OMap.lookup g sA.r.fx) :
+    let o := outState (advanceHeadFront fuel heads s)
+    let oA := outState (advanceHeadFront fuelA headsA sA)
+    (∀ g, ¬ G g → findInst o.ixs.ix g = findInst oA.ixs.ix g) ∧
+    (∀ g h, ¬ G g → OMap.lookup (g, h) o.r.hx = OMap.lookup (g, h) oA.r.hx) ∧
+    (∀ g, ¬ G g → (OMap.lookup g o.r.fx).map (fun x => { x with childFlowUids := [] }) =
+                   (OMap.lookup g oA.r.fx).map (fun x => { x with childFlowUids := [] })) := by
+  intro o oA
+  have f1 := (vm_advance_frame G fuel heads hH s hc).2
+  have f2 := (vm_advance_frame G fuelA headsA hHA sA hcA).2
+  refine ⟨fun g hg => ?_, fun g h hg => ?_, fun g hg => ?_⟩
+  · rw [f1.ix g hg, f2.ix g hg, hix g hg]
+  · rw [f1.hx g h hg, f2.hx g h hg, hhx g h hg]
+  · rw [ctx_of_frame f1 g hg, ctx_of_frame f2 g hg, hfx g hg]
+
+/-- **`vm_faulty_flow_fails_alone` — the CoreVM statements put together** for one faulty head `k` whose statement raises inside
+    `slide` (trace hypotheses of `vm_except_branch`), whose instance is a leaf at the raise (`Leafish1`), inside any family `G`
+    closed under child / scope flows (`Closed`; e.g. `G = {k.1}` for a leaf that owns its context):
+    * no Python-level exception leaves `_advance_head_front`;
+    * the `ColangError` event is in the final queue, whatever the outcome;
+    * every instance outside `G` is untouched, whatever the outcome (`FrameOut`), and `G` stays closed;
+    * on normal return nothing is handed back, nothing queued at the raise is lost, and if the instance was listening / STOPPING at
+      the raise it is STOPPED without heads with its `FlowFailed` queued. -/
+theorem vm_faulty_flow_fails_alone (G : FUid → Prop) (fuel : Nat) (k : Key) (s s1 s2 : VM) (i : Inst) (hd hd2 : Head)
+    (cfg : FlowCfg) (c m : String) (starting : Bool) (par : Option FUid) (act : Int)
+    (hG : G k.1) (hc : Closed G s)
+    (hi : findInst s.ixs.ix k.1 = some i) (hl : i.status.listening = true)
+    (hcfg : cfgOfInst k.1 s = .ok cfg s)
+    (hhd : i.findHead k.2 = some hd) (hact : hd.status = .active)
+    (hpre : (do
+        setHeadPos k (hd.pos + 1)
+        if (← getInst k.1).status = FlowStatus.waiting then setFlowStatus k.1 FlowStatus.starting
+        pure (decide ((← getInst k.1).status = FlowStatus.starting))) s = .ok starting s1)
+    (hraise : (do
+        let newHeads ← slide (fuel + 1) k.1 k.2
+        if newHeads.isEmpty then pure [] else advanceHeadFront (fuel + 1) newHeads) s1 = .error (.py c m) s2)
+    (hhd2 : (findInst s2.ixs.ix k.1).bind (·.findHead k.2) = some hd2) (hpos : hd2.pos < cfg.elements.size)
+    (hleaf : Leafish1 k.1 par act s2) :
+    (∀ c' m' s', advanceHeadFront (fuel + 2) [k] s ≠ .error (.py c' m') s') ∧
+    colangErrorEvent c m ∈ (outState (advanceHeadFront (fuel + 2) [k] s)).r.queue ∧
+    (Closed G (outState (advanceHeadFront (fuel + 2) [k] s)) ∧ FrameOut G s (outState (advanceHeadFront (fuel + 2) [k] s))) ∧
+    (∀ r s', advanceHeadFront (fuel + 2) [k] s = .ok r s' →
+      r = [] ∧ Ext s2 s' ∧
+      ∀ i2, findInst s2.ixs.ix k.1 = some i2 → (i2.status.listening = true ∨ i2.status = .stopping) → ∃ sc, Aborted k.1 sc s') := by
+  have h1 := vm_error_contained fuel k s s1 s2 i hd hd2 cfg c m starting hi hl hcfg hhd hact hpre hraise hhd2 hpos
+  refine ⟨vm_leaf_error_never_propagates fuel k s s1 s2 i hd hd2 cfg c m starting par act hi hl hcfg hhd hact hpre hraise hhd2 hpos hleaf,
+    h1.1, ?_, h1.2.1⟩
+  exact vm_advance_frame G (fuel + 2) [k] (by intro k' hk'; simp at hk'; subst hk'; exact hG) s hc
+
+/-! ### step labelling: CoreVM micro-steps are steps of the abstract models (phase 4, goal 3) -/
+
+/-- one non-stopping iteration of CoreVM's `slide` loop moves the head along an EDGE of the sliding graph of the classified
+    flow (`classify`, the Lean counterpart of `translate/c10.py::classify_flow`), for all 22 element kinds; explicit
+    hypotheses: not `EndScope` (calls `_abort_flow`), on `MergeHeads` the head is ACTIVE, on `Abort` the catch labels on the
+    head's stack are labels of `CatchPatternFailure` elements of the flow.  Hence `slide_terminates` speaks about CoreVM. -/
+theorem corevm_slide_step_is_edge (fuel : Nat) (f : FUid) (h : HUid) (s s' : VM) (cfg : FlowCfg) (hd : Head) (nh : List Key)
+    (hcfg : cfgOfInst f s = .ok cfg s)
+    (hhd : (findInst s.ixs.ix f).bind (·.findHead h) = some hd)
+    (hrun : slideStep fuel f h s = .ok (false, nh) s')
+    (hscope : ∀ n, cfg.elements[hd.pos]? ≠ some (.endScope n))
+    (hmerge : ∀ u, cfg.elements[hd.pos]? = some (.merge u) → hd.status = .active)
+    (hcatch : cfg.elements[hd.pos]? = some .abort → CatchNamesOk cfg ((OMap.lookup (f, h) s.r.hx).getD {})) :
+    ∃ hd', (findInst s'.ixs.ix f).bind (·.findHead h) = some hd' ∧ hd'.status = hd.status ∧
+      cfgOfInst f s' = .ok cfg s' ∧ SlideGraph.Edge (classify cfg) hd.pos hd'.pos :=
+  slideStep_moves_along_edge fuel f h s s' cfg hd nh hcfg hhd hrun hscope hmerge hcatch
+
+/-- when `slide` raises, the head still stands on an element of the flow (the hypothesis `hpos` of `vm_except_branch`;
+    every kind but fork / merge / EndScope): the handler's `flow_config.elements[head.position]` cannot raise IndexError -/
+theorem corevm_slide_error_position (fuel : Nat) (f : FUid) (h : HUid) (s s' : VM) (cfg : FlowCfg) (hd : Head) (c m : String)
+    (hcfg : cfgOfInst f s = .ok cfg s)
+    (hhd : (findInst s.ixs.ix f).bind (·.findHead h) = some hd)
+    (hlt : hd.pos < cfg.elements.size) (hk : (cfg.elements[hd.pos]!).slides = true)
+    (hrun : slideStep fuel f h s = .error (.py c m) s') :
+    ∃ hd', (findInst s'.ixs.ix f).bind (·.findHead h) = some hd' ∧ hd'.status = hd.status ∧
+      cfgOfInst f s' = .ok cfg s' ∧ hd'.pos < cfg.elements.size :=
+  slideStep_error_pos fuel f h s s' cfg hd c m hcfg hhd hlt hk hrun
+
+/-- **`corevm_step_is_machine_step`** (slide iteration, the element kinds without queue effect: assignment, log, print, global,
+    unknown element, goto, break / continue, priority, begin-scope, catch-pattern-failure, return, new action instance, plain
+    label): the CoreVM micro-step maps the token abstraction of the state (`absTokens`: queued events by kind, every non-INACTIVE
+    head of every listening instance) to a permutation of a `RoundMachine.Step` successor.  NOT reached: `send` (needs the emit
+    lists), restart label, wait-for-heads, abort, fork, and the non-slide micro-steps (pop of an internal event, resume) — these
+    remain tied by the replay of recorded real rounds (design_notes/C10.md §Tie 6). -/
+theorem corevm_step_is_machine_step (idx : String → Option Nat) (P : RoundMachine.RProg) (fl : RoundMachine.RFlow) (n fuel : Nat)
+    (f : FUid) (h : HUid) (cfg : FlowCfg) (hd : Head) (i : Inst) (s s' : VM) (b : Bool × List Key)
+    (hcfg : cfgOfInst f s = .ok cfg s) (hi : findInst s.ixs.ix f = some i) (hhd : i.findHead h = some hd)
+    (hlt : hd.pos < cfg.elements.size) (hact : hd.status ≠ .inactive) (hk : (cfg.elements[hd.pos]!).simple = true)
+    (hlisten : i.status.listening = true) (hidx : (OMap.lookup f (fxIds s.r.fx)).bind idx = some n)
+    (hP : P[n]? = some fl) (hctl : fl.ctl = classify cfg) (hemit : fl.emit.getD hd.pos [] = [])
+    (hrun : slideStep fuel f h s = .ok b s') :
+    b = (false, []) ∧ ∃ T', RoundMachine.Step P (absTokens idx s) T' ∧ (absTokens idx s').Perm T' :=
+  corevm_slide_step_is_machine_step idx P fl n fuel f h cfg hd i s s' b hcfg hi hhd hlt hact hk hlisten hidx hP hctl hemit hrun
+
+/-! ### non-vacuity of the CoreVM statements (kernel-evaluated on concrete states) -/
+
+/-- non-vacuity witness: one instance of `flow f: <noop>; $x = boom` (a bare name: NameNotDefined), WAITING, head on element 0 -/
+def demoCfg : FlowCfg :=
+  { id := "f", elements := #[.other, .assign "x" (.name "boom")], labels := [], params := [], returnMembers := [],
+    loopId := none, loopPriority := 0, metaTags := [] }
+def demoIx : IxS := ({} : IxS).apply (.addInst "f" "h" none) (by decide)
+def demoVM : VM :=
+  { ixs := demoIx,
+    r := { prog := ⟨[demoCfg]⟩, fx := [("f", { flowId := "f", loopId := none, hierPos := "0" })], hx := [(("f", "h"), {})] } }
+
+/-- the hypotheses of `vm_except_branch` / `vm_error_contained` hold of a concrete state (evaluated by the kernel) -/
+example : ∃ (i : Inst) (hd hd2 : Head) (s1 s2 : VM) (starting : Bool) (c m : String),
+    findInst demoVM.ixs.ix "f" = some i ∧ i.status.listening = true ∧ cfgOfInst "f" demoVM = .ok demoCfg demoVM ∧
+    i.findHead "h" = some hd ∧ hd.status = .active ∧
+    (do
+        setHeadPos ("f", "h") (hd.pos + 1)
+        if (← getInst "f").status = FlowStatus.waiting then setFlowStatus "f" FlowStatus.starting
+        pure (decide ((← getInst "f").status = FlowStatus.starting))) demoVM = .ok starting s1 ∧
+    (do
+        let newHeads ← slide 3 "f" "h"
+        if newHeads.isEmpty then pure [] else advanceHeadFront 3 newHeads) s1 = .error (.py c m) s2 ∧
+    (findInst s2.ixs.ix "f").bind (·.findHead "h") = some hd2 ∧ hd2.pos < demoCfg.elements.size :=
+  ⟨_, _, _, _, _, _, _, _, rfl, rfl, rfl, rfl, rfl, rfl, rfl, rfl, by decide⟩
+
+/-- … and the conclusion, computed: the call returns normally with nothing handed back -/
+example : ∃ s', advanceHeadFront 4 [("f", "h")] demoVM = .ok [] s' := ⟨_, rfl⟩
+/-- two instances: the faulty `f` and a bystander `g` (same flow config, for brevity) -/
+def demoIx2 : IxS := (({} : IxS).apply (.addInst "f" "h" none) (by decide)).apply (.addInst "g" "h2" none) (by decide)
+def demoVM2 : VM :=
+  { ixs := demoIx2,
+    r := { prog := ⟨[demoCfg]⟩,
+           fx := [("f", { flowId := "f", loopId := none, hierPos := "0" }), ("g", { flowId := "f", loopId := none, hierPos := "1", context := [("y", .int 1)] })],
+           hx := [(("f", "h"), {}), (("g", "h2"), {})] } }
+
+/-- non-vacuity of the frame theorems: `G = {f}` is closed in a state with a bystander `g`, … -/
+theorem demo_closed : Closed (· = "f") demoVM2 := by
+  intro g x hg hl
+  subst hg
+  have : x = { flowId := "f", loopId := none, hierPos := "0" } := by
+    have h : OMap.lookup "f" demoVM2.r.fx = some { flowId := "f", loopId := none, hierPos := "0" } := rfl
+    rw [h] at hl; cases hl; rfl
+  subst this
+  exact ⟨fun c hc => absurd hc (by simp [kids, scopeFlows]), rfl⟩
+
+/-- … and the faulty advance, computed by the kernel, really leaves `g` alone while `f` ends STOPPED -/
+example : ∃ s', advanceHeadFront 4 [("f", "h")] demoVM2 = .ok [] s' ∧
+    findInst s'.ixs.ix "g" = findInst demoVM2.ixs.ix "g" ∧ OMap.lookup "g" s'.r.fx = OMap.lookup "g" demoVM2.r.fx ∧
+    (findInst s'.ixs.ix "f").map (·.status) = some .stopped :=
+  ⟨_, rfl, rfl, rfl, rfl⟩
+
+/-- the same state over the program in which the faulty statement is replaced by `abort` -/
+def demoCfgA : FlowCfg := { demoCfg with elements := #[.other, .abort] }
+def demoVM2A : VM := { demoVM2 with r := { demoVM2.r with prog := ⟨[demoCfgA]⟩ } }
+theorem demo_closedA : Closed (· = "f") demoVM2A := demo_closed
+
+/-- non-vacuity of `vm_faulty_vs_abort`: its hypotheses hold of the two concrete runs, and both runs, computed by the kernel,
+    end with `f` STOPPED and the bystander `g` exactly as it was -/
+example : Closed (· = "f") demoVM2 ∧ Closed (· = "f") demoVM2A ∧
+    (∀ g, ¬ g = "f" → findInst demoVM2.ixs.ix g = findInst demoVM2A.ixs.ix g) ∧
+    (∀ g h, ¬ g = "f" → OMap.lookup (g, h) demoVM2.r.hx = OMap.lookup (g, h) demoVM2A.r.hx) ∧
+    (∀ g, ¬ g = "f" → OMap.lookup g demoVM2.r.fx = OMap.lookup g demoVM2A.r.fx) :=
+  ⟨demo_closed, demo_closedA, fun _ _ => rfl, fun _ _ _ => rfl, fun _ _ => rfl⟩
+example : ∃ s', advanceHeadFront 4 [("f", "h")] demoVM2A = .ok [] s' ∧
+    findInst s'.ixs.ix "g" = findInst demoVM2.ixs.ix "g" ∧ (findInst s'.ixs.ix "f").map (·.status) = some .stopped :=
+  ⟨_, rfl, rfl, rfl⟩
+
+/-- non-vacuity of `vm_abort_postcondition` -/
+example : ∃ i s', findInst demoVM.ixs.ix "f" = some i ∧ (i.status.listening = true ∨ i.status = .stopping) ∧
+    abortFlow 2 "f" [] false demoVM = .ok () s' := ⟨_, _, rfl, Or.inl rfl, rfl⟩
+
+/-- non-vacuity of `corevm_slide_step_is_edge` (the head of `demoVM` stands on the no-op element 0) -/
+example : ∃ hd s', cfgOfInst "f" demoVM = .ok demoCfg demoVM ∧
+    (findInst demoVM.ixs.ix "f").bind (·.findHead "h") = some hd ∧
+    slideStep 3 "f" "h" demoVM = .ok (false, []) s' ∧
+    (∀ n, demoCfg.elements[hd.pos]? ≠ some (.endScope n)) ∧
+    (∀ u, demoCfg.elements[hd.pos]? = some (.merge u) → hd.status = .active) ∧
+    (demoCfg.elements[hd.pos]? = some .abort → CatchNamesOk demoCfg ((OMap.lookup ("f", "h") demoVM.r.hx).getD {})) :=
+by
+  refine ⟨_, _, rfl, rfl, rfl, ?_, ?_, ?_⟩
+  · intro n h; cases h
+  · intro u h; cases h
+  · intro h; cases h
+
+/-- non-vacuity of `corevm_slide_error_position`: after `head.position += 1` the head stands on `$x = boom`, which raises -/
+example : ∃ s1 hd s' c m, setHeadPos ("f", "h") 1 demoVM = .ok () s1 ∧ cfgOfInst "f" s1 = .ok demoCfg s1 ∧
+    (findInst s1.ixs.ix "f").bind (·.findHead "h") = some hd ∧ hd.pos < demoCfg.elements.size ∧
+    (demoCfg.elements[hd.pos]!).slides = true ∧ slideStep 3 "f" "h" s1 = .error (.py c m) s' :=
+  ⟨_, _, _, _, _, rfl, rfl, rfl, by decide, rfl, rfl⟩
+
+/-- non-vacuity of `corevm_step_is_machine_step` -/
+example : ∃ (P : RoundMachine.RProg) (fl : RoundMachine.RFlow) (i : Inst) (hd : Head) (b : Bool × List Key) (s' : VM),
+    cfgOfInst "f" demoVM = .ok demoCfg demoVM ∧ findInst demoVM.ixs.ix "f" = some i ∧ i.findHead "h" = some hd ∧
+    hd.pos < demoCfg.elements.size ∧ hd.status ≠ .inactive ∧ (demoCfg.elements[hd.pos]!).simple = true ∧
+    i.status.listening = true ∧ (OMap.lookup "f" (fxIds demoVM.r.fx)).bind (fun _ => some 0) = some 0 ∧
+    P[0]? = some fl ∧ fl.ctl = classify demoCfg ∧ fl.emit.getD hd.pos [] = [] ∧ slideStep 3 "f" "h" demoVM = .ok b s' :=
+  ⟨[{ ctl := classify demoCfg, emit := [[], []], wk := [.ext, .ext], restartable := false }], _, _, _, _, _,
+    rfl, rfl, rfl, by decide, by decide, rfl, rfl, rfl, rfl, rfl, rfl, rfl⟩
+
+/-- witness with a parent: `m` (main) lists the faulty instance `f` as its child -/
+def demoVM3 : VM :=
+  { ixs := demoIx,
+    r := { prog := ⟨[demoCfg]⟩,
+           fx := [("m", { flowId := "main", loopId := none, hierPos := "0", childFlowUids := ["f"] }),
+                  ("f", { flowId := "f", loopId := none, hierPos := "0.0", parentUid := some "m" })],
+           hx := [(("f", "h"), {})] } }
+
+/-- non-vacuity of `vm_leaf_error_never_propagates`: the leaf hypothesis holds at the raise state of the concrete run … -/
+example : ∃ (s1 s2 : VM) (c m : String),
+    (do
+        setHeadPos ("f", "h") 1
+        if (← getInst "f").status = FlowStatus.waiting then setFlowStatus "f" FlowStatus.starting
+        pure (decide ((← getInst "f").status = FlowStatus.starting))) demoVM3 = .ok true s1 ∧
+    (do
+        let newHeads ← slide 3 "f" "h"
+        if newHeads.isEmpty then pure [] else advanceHeadFront 3 newHeads) s1 = .error (.py c m) s2 ∧
+    Leafish1 "f" (some "m") 0 s2 :=
+  ⟨_, _, _, _, rfl, rfl,
+    ⟨⟨⟨_, rfl, ⟨rfl, rfl, rfl, rfl, rfl⟩⟩, rfl, fun p h => by cases h; rfl⟩, fun _ p h => by cases h; exact ⟨_, rfl, by decide⟩⟩⟩
+/-- … and the computed run: normal return, the parent no longer lists `f`, `f` is STOPPED -/
+example : ∃ s', advanceHeadFront 4 [("f", "h")] demoVM3 = .ok [] s' ∧
+    (OMap.lookup "m" s'.r.fx).map (·.childFlowUids) = some [] ∧ (findInst s'.ixs.ix "f").map (·.status) = some .stopped :=
+  ⟨_, rfl, rfl, rfl⟩
+
+/-! ### the three open findings of phase 4, as theorems about the AS-IS model (CoreVM mirrors the pinned code) -/
+
+/-- `<noop>; match UtteranceBotAction(..).Nope()`: the event name of the match statement cannot be computed -/
+def badMatchSpec : Spec := Spec.mk (some "UtteranceBotAction") .action [] none (some [Member.mk "Nope" []]) none
+def badMatchCfg : FlowCfg := { demoCfg with elements := #[.other, .matchOp badMatchSpec false] }
+def badMatchVM : VM := { demoVM with r := { demoVM.r with prog := ⟨[badMatchCfg]⟩ } }
+
+/-- FINDING `error-raised-by-head-advance-outside-try` (kernel-evaluated counterexample to "`_advance_head_front` never lets a
+    statement's error out"): `head.position += 1` is outside the try block and fires the head-changed callback, which computes the
+    event name of the match statement the head arrives at — the Python-level exception leaves `_advance_head_front`.
+    (`vm_except_branch` / `vm_error_contained` exclude exactly this region by the hypothesis `hpre … = .ok`.) -/
+theorem advance_position_error_escapes_as_is :
+    ∃ m s', advanceHeadFront 4 [("f", "h")] badMatchVM = .error (.py "ColangSyntaxError" m) s' := ⟨_, _, rfl⟩
+
+/-- FINDING `error-raised-while-processing-internal-event`: an internal `StartFlow` event without `flow_id` raises KeyError in
+    `_process_internal_events_without_default_matchers`, outside every try block -/
+theorem startflow_without_flow_id_escapes_as_is :
+    processInternalEvent 1 { ev := { kind := .internal, name := "StartFlow", args := [] } } demoVM =
+      .error (.py "KeyError" "flow_id") demoVM := rfl
+
+/-- the class of the Python-level exception a result carries -/
+def pyClassOf {α : Type} : EStateM.Result VMErr VM α → Option String
+  | .error (.py c _) _ => some c
+  | _ => none
+
+/-- a freshly created instance `p` of `flow helper_p $a` (one parameter), started by `f` with THREE positional arguments -/
+def paramCfg : FlowCfg :=
+  { id := "helper_p", elements := #[.other], labels := [], params := [{ name := "a", default := none }], returnMembers := [],
+    loopId := none, loopPriority := 0, metaTags := [] }
+def paramIx : IxS := (({} : IxS).apply (.addInst "f" "h" none) (by decide)).apply (.addInst "p" "hp" none) (by decide)
+def paramVM : VM :=
+  { ixs := paramIx,
+    r := { prog := ⟨[demoCfg, paramCfg]⟩,
+           fx := [("f", { flowId := "f", loopId := none, hierPos := "0" }),
+                  ("p", { flowId := "helper_p", loopId := none, hierPos := "0.1", arguments := [("a", .none)] })],
+           hx := [(("f", "h"), {}), (("p", "hp"), {})] } }
+def startP : Event :=
+  { ev := { kind := .internal, name := "StartFlow",
+            args := [("flow_id", .str "helper_p"), ("flow_instance_uid", .str "p"), ("source_flow_instance_uid", .str "f"),
+                     ("source_head_uid", .str "h"), ("$0", .int 1), ("$1", .int 2), ("$2", .int 3)] } }
+
+/-- FINDING `error-raised-while-handling-match`: `_start_flow` ("To many parameters provided in start of flow") is called from
+    `_handle_event_matching`, outside every try block -/
+theorem start_flow_error_escapes_as_is :
+    pyClassOf (handleEventMatching startP [("p", "hp")] paramVM) = some "ColangRuntimeError" := by decide +kernel
+
+
+/-- non-vacuity of `vm_faulty_flow_fails_alone`: besides the trace hypotheses (witnessed above for `demoVM3`) the family `{f}` is closed
+    in `demoVM3` — its parent `m` is outside and only loses `f` from its child list -/
+example : Closed (· = "f") demoVM3 := by
+  intro g x hg hl
+  subst hg
+  have h : OMap.lookup "f" demoVM3.r.fx = some { flowId := "f", loopId := none, hierPos := "0.0", parentUid := some "m" } := rfl
+  rw [h] at hl; cases hl
+  exact ⟨fun c hc => absurd hc (by simp [kids, scopeFlows]), rfl⟩
+
+/-- non-vacuity of `vm_try_catches` and `vm_slide_returns_own_heads` -/
+example : attemptPy (pyRaise "E" "m" : M Unit) demoVM = .ok (.error ("E", "m")) demoVM := vm_try_catches _ _ _ _ _ rfl
+example : ∃ r s', slide 3 "f" "h" demoVM2A = .ok r s' := ⟨_, _, rfl⟩
+
+/-- witness: the same flow, ACTIVATED (`@active`), instance still WAITING (so the advance makes it STARTING) -/
+def demoVM4 : VM :=
+  { demoVM with r := { demoVM.r with fx := [("f", { flowId := "f", loopId := none, hierPos := "0", activated := 1 })] } }
+
+/-- non-vacuity of `vm_restart_guard` … -/
+example : ∃ (s1 s2 : VM) (c m : String) (x : InstX),
+    (do
+        setHeadPos ("f", "h") 1
+        if (← getInst "f").status = FlowStatus.waiting then setFlowStatus "f" FlowStatus.starting
+        pure (decide ((← getInst "f").status = FlowStatus.starting))) demoVM4 = .ok true s1 ∧
+    (do
+        let newHeads ← slide 3 "f" "h"
+        if newHeads.isEmpty then pure [] else advanceHeadFront 3 newHeads) s1 = .error (.py c m) s2 ∧
+    OMap.lookup "f" s2.r.fx = some x ∧ x.activated > 0 :=
+  ⟨_, _, _, _, _, rfl, rfl, rfl, by decide⟩
+/-- … and the computed run: the activated flow fails (STOPPED), two events are queued (ColangError, FlowFailed), no StartFlow -/
+example : ∃ s', advanceHeadFront 4 [("f", "h")] demoVM4 = .ok [] s' ∧ startCount s' = 0 ∧ s'.r.queue.length = 2 ∧
+    (findInst s'.ixs.ix "f").map (·.status) = some .stopped := ⟨_, rfl, rfl, rfl, rfl⟩
+
+/-- contrast (kernel-evaluated): the same activated flow already STARTED (it passed a wait) — here the restart is wanted: the
+    `except` branch puts the restart `StartFlow` at the FRONT of the queue, before `ColangError` and `FlowFailed` -/
+def demoIx5 : IxS :=
+  ((({} : IxS).apply (.addInst "f" "h" none) (by decide)).apply (.setFlowStatus "f" .starting) (by decide)).apply
+    (.setFlowStatus "f" .started) (by decide)
+def demoVM5 : VM := { demoVM4 with ixs := demoIx5 }
+example : ∃ s', advanceHeadFront 4 [("f", "h")] demoVM5 = .ok [] s' ∧ startCount s' = 1 ∧
+    s'.r.queue.map (·.ev.name) = ["StartFlow", "ColangError", "FlowFailed"] := ⟨_, rfl, rfl, rfl⟩
+end NemoVerif.C10.VM
